@@ -26,7 +26,7 @@ ASSUMPTIONS = [
 COMPONENTS = dict(real='pytableaux.proof.writers (jinja text writer, doctree html/latex translators, templates), lang.writing', stub='node/branch hash provider (seeded); wall clock seam: any time / datetime name in a pytableaux module is driven by a virtual clock that jumps between the renders')
 
 def plan(tier):
-    return dict(runs=1600 if tier == 'quick' else 48000, timeout=300 if tier == 'quick' else 3600)
+    return dict(runs=1600 if tier == 'quick' else 48000, timeout=900 if tier == 'quick' else 7200)
 
 def make_cfg(ctx):
     rng = ctx.rng('workload')
